@@ -78,6 +78,54 @@ pub fn obj_track_set(on: bool) {
     TRACK_SET.store(on, Ordering::SeqCst);
 }
 
+//
+// Fault injection: a callback of the caller (V::clone, the weigher, the predicate of
+// invalidate_entries_if) panics at a chosen call. Armed by the driver right before one operation
+// and disarmed right after it, so the harness' own use of these types never trips it.
+//
+
+pub const FAULT_MSG: &str = "MMV_FAULT: injected panic in a callback of the caller";
+pub const SITE_CLONE: u8 = 0;
+pub const SITE_WEIGHER: u8 = 1;
+pub const SITE_PRED: u8 = 2;
+
+thread_local! {
+    static FAULT: std::cell::Cell<Option<(u8, u32)>> = const { std::cell::Cell::new(None) };
+}
+
+/// The `nth` call (0 = the next one) of the callback `site` on this thread panics.
+pub fn arm_fault(site: u8, nth: u32) {
+    FAULT.with(|f| f.set(Some((site, nth))));
+}
+
+/// Disarms; true when the fault was still armed (it did not fire).
+pub fn disarm_fault() -> bool {
+    FAULT.with(|f| f.take()).is_some()
+}
+
+#[inline]
+pub fn fault_point(site: u8) {
+    FAULT.with(|f| {
+        if let Some((s, n)) = f.get() {
+            if s == site {
+                if n == 0 {
+                    f.set(None);
+                    panic!("{}", FAULT_MSG);
+                }
+                f.set(Some((s, n - 1)));
+            }
+        }
+    });
+}
+
+pub fn site_name(site: u8) -> &'static str {
+    match site {
+        SITE_CLONE => "clone",
+        SITE_WEIGHER => "weigher",
+        _ => "predicate",
+    }
+}
+
 /// Key: identity (hash / eq) is `id`; `obj` is the unique object id (0 = untracked probe key).
 #[derive(Debug)]
 pub struct TK {
@@ -143,6 +191,7 @@ impl TV {
 
 impl Clone for TV {
     fn clone(&self) -> Self {
+        fault_point(SITE_CLONE);
         let obj = NEXT_OBJ.fetch_add(1, Ordering::Relaxed);
         VALS_CLONED.fetch_add(1, Ordering::Relaxed);
         LIVE_VALS.fetch_add(1, Ordering::SeqCst);
